@@ -25,6 +25,7 @@ import (
 	"github.com/nuts-foundation/go-leia/v4"
 	"github.com/nuts-foundation/go-stoabs"
 	"github.com/nuts-foundation/nuts-node/core"
+	"github.com/nuts-foundation/nuts-node/core/verifhook"
 	"github.com/nuts-foundation/nuts-node/storage"
 	"github.com/nuts-foundation/nuts-node/vcr/log"
 
@@ -81,6 +82,9 @@ func (s leiaVerifierStore) StoreRevocation(revocation credential.Revocation) err
 }
 
 func (s leiaVerifierStore) GetRevocations(id ssi.URI) ([]*credential.Revocation, error) {
+	if err := verifhook.Fault("vcr.verifier.store.GetRevocations", id.String()); err != nil {
+		return nil, err
+	}
 	query := leia.New(leia.Eq(leia.NewJSONPath(credential.RevocationSubjectPath), leia.MustParseScalar(id.String())))
 
 	results, err := s.revocationCollection().Find(context.Background(), query)
